@@ -102,7 +102,8 @@ def build_world(desc):
         # arrays on X and Z, for which no joint metric is registered: the metric is a product of one-axis metrics
         W["xz_c"] = xr.DataArray(gen.quarter_data(desc["seed"] + 4, (5, N)), dims=["zc", "xc"], name="xz")
         W["xz_o"] = xr.DataArray(gen.quarter_data(desc["seed"] + 5, (6, N)), dims=["zo", "xg"], name="xzo")
-        W["axes_xz"] = ["X", "Z"]
+        # axes are named in a list, in the Grid's own order or not (the caller's list is the caller's: not sorted in place)
+        W["axes_xz"] = ["X", "Z"] if desc["seed"] % 2 else ["Z", "X"]
         W["u"] = xr.DataArray(gen.quarter_data(desc["seed"] + 2, (2, M, N)), dims=["time", "yc", "xg"], name="u", attrs={"long_name": "zonal velocity", "units": "m s-1"})
         W["v"] = xr.DataArray(gen.quarter_data(desc["seed"] + 3, (2, M, N)), dims=["time", "yg", "xc"], name="v", attrs={"long_name": "meridional velocity"})
         W["VD"] = {"X": W["u"]}
@@ -111,12 +112,12 @@ def build_world(desc):
         W["Bp"] = {"X": "fill"}
         W["F"] = {"X": -1.0, "Y": 5.0}
         W["T"] = {"X": "left", "Y": "left"}
-        W["MW"] = {"X": ("X",), "Y": ["Y"]}
+        W["MW"] = {"X": ("X",), "Y": ["Y"]} if desc["seed"] % 3 else {"X": ["Y", "X"], "Y": ["Y"]}
         W["Tn"] = {"X": None, "Y": "left"}  # None: not specified for X, the default shift applies
         W["Bn"] = {"X": None, "Y": "extend"}
         W["BW"] = {"X": (1, 0)}
         W["PW"] = {"X": (2, 1), "Y": (0, 1)}
-        W["axes_list"] = ["X", "Y"]
+        W["axes_list"] = ["X", "Y"] if (desc["seed"] // 2) % 2 else ["Y", "X"]
         W["levels"] = np.array([0.75, 2.5, 4.0])
         W["bins"] = xr.DataArray(np.array([0.0, 2.0, 5.0, 9.0]), dims=["dens_bin"])
         W["td_named"] = xr.DataArray(np.stack([np.arange(5.0) + 0.5, np.arange(5.0) * 2 + 1]), dims=["time", "zc"], name="dens")
